@@ -143,7 +143,7 @@ def check_property_file(pid):
     path = os.path.join('Properties', pid + '.v')
     full = os.path.join(COQ, path)
     if not os.path.exists(full):
-        return False, 0, '', 'missing ' + path
+        return False, [], '', 'missing ' + path
     src = open(full).read()
     names = re.findall(r'^\s*(?:Theorem|Lemma|Example|Corollary)\s+(\w+)', src, re.M)
     # dependencies first (no-op when up to date), then the file itself, always recompiled
